@@ -7,7 +7,10 @@ built-in integer type `T = ⟨bits, signed⟩` of **any** width, written over th
 semantics of `CnlModel.CInt`: the result `Res` carries undefined behaviour (overflow of
 `root + bit` in `decltype(root + bit)`, a bad shift count), a failed `CNL_ASSERT`
 (`unreachable`) and non-termination of either loop (`diverges`, the loops carry explicit fuel).
-`Cnl.Sqrt.sqrtNum` adds the `elastic_integer`, `wide_integer` and `scaled_integer` overloads.
+`Cnl.Sqrt.sqrtNum` adds the `elastic_integer`, `wide_integer` and `scaled_integer` overloads, and
+`overflow_integer` / `rounding_integer` over any of these at value level (the generic algorithm over the
+wrapped operators; that no overflow test of a checked tag fires is covered by correspondence only, the
+`sqrt_overflow_*` theorems say that the model's result is the floor of the root in the re-wrapped type).
 `Cnl.SqrtSpec.IsFloorSqrt x r` is `0 ≤ r ∧ r² ≤ x < (r+1)²`; `IsScaledFloorSqrt` is the same
 inequality between the rationals the scaled representations denote; `FitsDigits d r` is `0 ≤ r < 2^d`.
 
@@ -86,6 +89,43 @@ theorem sqrt_scaled_elastic_floor (D : Nat) (N R : IntTy) (hR : elasticRep D N =
   obtain ⟨h1, h2⟩ := sqrt_scaled_floor (.el D (.int N)) e radix he hr x _ r h hf
   exact ⟨N', r, h1, h2, hd⟩
 
+/-- **overflow_integer<Rep, Tag>, any tag, any representation** for which `sqrt` of the representation is
+defined: the result is the same number re-wrapped in the same tag — in particular it is a value, not a
+trap / throw / unreachable report, and not a saturated stand-in.  (That the tag's overflow tests do not
+fire on the way is part of the model's definition, tied to the code by correspondence only — see the
+comment on `sqrtNum`.) -/
+theorem sqrt_overflow_rewrap (rep : Ty) (tag : OvTag) (x : Int) (t' : Ty) (r : Int)
+    (h : sqrtNum rep x = .ok (t', r)) : sqrtNum (.ov rep tag) x = .ok (.ov t' tag, r) := by
+  simp [sqrtNum, h, Res.map]
+
+/-- **rounding_integer<Rep, Mode>**: likewise (no operation of the algorithm rounds). -/
+theorem sqrt_rounding_rewrap (rep : Ty) (mode : RdMode) (x : Int) (t' : Ty) (r : Int)
+    (h : sqrtNum rep x = .ok (t', r)) : sqrtNum (.rd rep mode) x = .ok (.rd t' mode, r) := by
+  simp [sqrtNum, h, Res.map]
+
+/-- overflow_integer over a built-in representation of any width, any tag: floor of the root, in the
+overflow_integer of the promoted type. -/
+theorem sqrt_overflow_int_floor (T : IntTy) (tag : OvTag) (hD : 1 ≤ T.digits) (x : Int) (hx0 : 0 ≤ x) (hx : x ≤ T.max) :
+    ∃ r, sqrtNum (.ov (.int T) tag) x = .ok (.ov (.int (promote T)) tag, r) ∧ IsFloorSqrt x r := by
+  obtain ⟨r, h, hf⟩ := sqrt_int_floor T hD x hx0 hx
+  have h' : sqrtNum (.int T) x = .ok (.int (promote T), r) := by simp [sqrtNum, h, Res.map, bind, Res.bind]
+  exact ⟨r, sqrt_overflow_rewrap _ tag x _ r h', hf⟩
+
+/-- overflow_integer over a wide_integer (single- or multi-word, either signedness), any tag. -/
+theorem sqrt_overflow_wide_floor (D : Nat) (N R : IntTy) (tag : OvTag) (hN : 1 ≤ N.bits) (hR : wideRep D N = some R)
+    (h32 : 32 ≤ R.bits) (hD : 1 ≤ D) (x : Int) (hx0 : 0 ≤ x) (hx : x < 2 ^ D) :
+    ∃ r, sqrtNum (.ov (.wd D (.int N)) tag) x = .ok (.ov (.wd D (.int N)) tag, r) ∧ IsFloorSqrt x r := by
+  obtain ⟨r, h, hf⟩ := sqrt_wide_floor D N R hN hR h32 hD x hx0 hx
+  exact ⟨r, sqrt_overflow_rewrap _ tag x _ r h, hf⟩
+
+/-- overflow_integer over a rounding_integer over a built-in representation. -/
+theorem sqrt_overflow_rounding_int_floor (T : IntTy) (tag : OvTag) (mode : RdMode) (hD : 1 ≤ T.digits) (x : Int)
+    (hx0 : 0 ≤ x) (hx : x ≤ T.max) :
+    ∃ r, sqrtNum (.ov (.rd (.int T) mode) tag) x = .ok (.ov (.rd (.int (promote T)) mode) tag, r) ∧ IsFloorSqrt x r := by
+  obtain ⟨r, h, hf⟩ := sqrt_int_floor T hD x hx0 hx
+  have h' : sqrtNum (.int T) x = .ok (.int (promote T), r) := by simp [sqrtNum, h, Res.map, bind, Res.bind]
+  exact ⟨r, sqrt_overflow_rewrap _ tag x _ r (sqrt_rounding_rewrap _ mode x _ r h'), hf⟩
+
 /-- The start bit: the model's closed form `startShift D` (largest even number ≤ `D − 1`) is the
 value of the C++ constant expression `(digits_v<Integer> - 1) & ~1` evaluated in `int`, for every
 digit count an `int` can hold. -/
@@ -116,6 +156,12 @@ example : ∃ N' r, sqrtNum (.el 8 (.int u8)) 255 = .ok (.el 4 (.int N'), r) ∧
 example : sqrtNum (.wd 200 (.int i32)) (2 ^ 200 - 1) = .ok (.wd 200 (.int i32), 2 ^ 100 - 1) := by decide +kernel
 example : ∃ r, sqrtNum (.sc (.int i16) (-8) 2) 32767 = .ok (.sc (.int i32) (-4) 2, r) ∧ IsScaledFloorSqrt 32767 (-8) 2 r (-4) :=
   sqrt_scaled_int_floor i16 (by decide) (-8) 2 (by decide) (by decide) 32767 (by decide) (by decide)
+example : sqrtNum (.ov (.wd 64 (.int u32)) .trp) 4294836225 = .ok (.ov (.wd 64 (.int u32)) .trp, 65535) := by decide +kernel
+example : sqrtNum (.ov (.wd 200 (.int u32)) .sat) 25 = .ok (.ov (.wd 200 (.int u32)) .sat, 5) := by decide +kernel
+example : ∃ r, sqrtNum (.ov (.rd (.int u32) .nrst) .thr) 871666576 = .ok (.ov (.rd (.int u32) .nrst) .thr, r) ∧ IsFloorSqrt 871666576 r :=
+  sqrt_overflow_rounding_int_floor u32 .thr .nrst (by decide) _ (by decide) (by decide)
+example : ∃ r, sqrtNum (.ov (.wd 129 (.int u32)) .und) (2 ^ 128) = .ok (.ov (.wd 129 (.int u32)) .und, r) ∧ IsFloorSqrt (2 ^ 128) r :=
+  sqrt_overflow_wide_floor 129 u32 ⟨160, false⟩ .und (by decide) (by decide) (by decide) (by decide) _ (by decide) (by decide)
 example : IsScaledFloorSqrt 1000 (-4) 2 31 (-2) := by decide +kernel
 example : startShiftC 31 = .ok (i32, 30) ∧ startShiftC 32 = .ok (i32, 30) ∧ startShiftC 8 = .ok (i32, 6) := by decide +kernel
 example : sqrtInt i32 (-1) = .unreachable "sqrt.h assert: x >= Integer{0}" := by decide +kernel
